@@ -427,7 +427,11 @@ pub fn rundir() -> PathBuf {
 }
 
 /// Start a server on its own thread. Returns once all workers are up and the handle is available.
+/// The next server started by this process is built with `ServerBuilder::system_exit()` (one-shot).
+pub static SYSTEM_EXIT_NEXT: AtomicBool = AtomicBool::new(false);
+
 pub fn start(cfg: &ServerCfg, prepare: impl FnOnce(&[Ctl])) -> Result<Running, String> {
+    let system_exit = SYSTEM_EXIT_NEXT.swap(false, Ordering::SeqCst);
     let no = RUN_NO.fetch_add(1, Ordering::SeqCst);
     let dir = rundir();
     let next_instance = Arc::new(AtomicU64::new(0));
@@ -467,7 +471,11 @@ pub fn start(cfg: &ServerCfg, prepare: impl FnOnce(&[Ctl])) -> Result<Running, S
                     .workers(cfg2.workers)
                     .max_concurrent_connections(cfg2.limit)
                     .shutdown_timeout(cfg2.shutdown_timeout)
-                    .backlog(cfg2.backlog)
+                    .backlog(cfg2.backlog);
+                if system_exit {
+                    b = b.system_exit();
+                }
+                let mut b = b
                     .disable_signals();
                 for (i, (k, t, u)) in std_listeners.into_iter().enumerate() {
                     let ctl = ctls2[i].clone();
